@@ -6,7 +6,7 @@ PROP = "C19"
 THEOREMS = ["new_canonical", "new_idempotent", "canonical_classes", "canonical_fixed_points", "ops_closed",
             "sin_odd_any_rounding", "cos_even", "sin_odd", "new_matches_adder", "sin_table_facts",
             "q32_total", "q32_saturates", "q32_mul_nearest", "q32_div_nearest", "q32_to_f32_canonical",
-            "prng_next_int_range", "prng_never_zero_state", "from_axis_angle_total_refuted",
+            "prng_next_int_range", "prng_never_zero_state", "from_axis_angle_total", "from_axis_angle_unchanged",
             "sin_cos_range", "sin_cos_is_signed_interp", "sin_interp_segment_range"]
 PRE = ("From Coq Require Import List NArith ZArith.\n"
        "From Echo Require Import Model.TrigTable Model.Scalar.\n"
@@ -172,7 +172,7 @@ def gen_ops(rng, n):
         else:
             op = rng.choice(["mmul", "mpoint", "mdir", "meuler", "maxis"])
             nargs = {"mmul": 32, "mpoint": 19, "mdir": 19, "meuler": 3, "maxis": 4}[op]
-            g = gen_finite_any if (op in ("meuler",) and rng.random() < 0.5) else gen_moderate
+            g = gen_finite_any if ((op == "meuler" and rng.random() < 0.5) or (op == "maxis" and rng.random() < 0.25)) else gen_moderate
             cases.append(f"op={op} x=" + ",".join(h8(g(rng)) for _ in range(nargs)))
     return cases
 
@@ -655,7 +655,8 @@ MANIFEST = {
              "than verified: scalar.rs, trig.rs, vec3.rs, quat.rs, mat4.rs, fixed_q32_32.rs, prng.rs, lib.rs(det_sqrt_f32, libm::sqrtf taken as "
              "correctly rounded), codec.rs canonicalize_f32/fx_from_f32/fx_from_i64 as Gallina functions; `x % TAU` as the exact remainder. "
              "Release semantics are modelled; the debug-only tripwires (debug_assert on non-finite angles and in Quat::new), which the crate "
-             "documents, are treated as out of domain. Known finding (theorem from_axis_angle_total_refuted): Quat::from_axis_angle on a finite "
-             "axis whose squared length overflows yields NaN (release) / panics (debug). Informational: NaN payloads propagated through raw Vec3 "
+             "documents, are treated as out of domain. Quat::from_axis_angle (with the overflow repair of the former finding "
+             "quat-from_axis_angle-nan-from-finite-input) is proved total on every finite axis and any angle (from_axis_angle_total). "
+             "Informational: NaN payloads propagated through raw Vec3 "
              "operations (out of the documented finite domain) differ between debug and release."),
 }
